@@ -349,3 +349,35 @@ def specialise(term, cond_key, truth):
             return cur
         cur = cur.subs(mapping)
     return cur
+
+
+def fancy_aug_sites(ev, roots=None):
+    """In-place accumulation through an integer-array index, ``a[idx] += v``: numpy applies it once per *distinct* index,
+    so contributions to a repeated index are lost (np.add.at is the accumulating form).  Returns [(event, description)].
+
+    An index counts as an array when it is neither a loop variable, a constant, a slice nor a scalar call like int()."""
+    out = []
+    for e in ev.events:
+        if e.kind != "aug":
+            continue
+        t = e.target.as_atom()
+        if not (t and t[0] == "sub" and len(t[2]) == 1):
+            continue
+        if roots is not None and t[1].key() not in roots:
+            continue
+        idx = t[2][0]
+        ia = idx.as_atom()
+        if idx.const_value() is not None:
+            continue
+        if ia and ia[0] in ("slice", "lv", "const", "str"):
+            continue
+        if ia is None:
+            # arithmetic on loop variables / scalars
+            if all(a[0] in ("lv", "name", "const") for a in idx.atoms()):
+                continue
+        if ia and ia[0] == "sub" and ia[2] and all(x.as_atom() and x.as_atom()[0] == "lv" for x in ia[2]):
+            continue                      # element of an index list inside a loop: a scalar
+        if ia and ia[0] == "name":
+            continue
+        out.append((e, f"{e.target} {e.op or '+'}= ... with an array index: repeated indices are applied once, not accumulated"))
+    return out
